@@ -21,18 +21,22 @@ func init() {
 }
 
 type journalSlot struct {
-	slot    int64
-	lit     *ast.CompositeLit
-	pos     token.Pos
-	execute string
-	fields  map[string]ast.Expr
+	slot      int64
+	lit       *ast.CompositeLit
+	pos       token.Pos
+	execute   string
+	fields    map[string]ast.Expr
+	installer string
 }
 
 // journalSlots resolves the instructions installed in 0xe0-0xe7 from the frontier table literal.
-func (w *World) journalSlots() []journalSlot {
+func (w *World) journalSlots() []journalSlot { return w.slotLits(0xe0, 0xe7) }
+
+// slotLits returns the operation literals installed in the opcode slots lo..hi.
+func (w *World) slotLits(lo, hi int64) []journalSlot {
 	var out []journalSlot
 	for _, sw := range w.jumpTableWrites() {
-		if sw.slot < 0xe0 || sw.slot > 0xe7 || sw.elt == nil {
+		if sw.slot < lo || sw.slot > hi || sw.elt == nil {
 			continue
 		}
 		lit, ok := sw.elt.(*ast.CompositeLit)
@@ -44,7 +48,7 @@ func (w *World) journalSlots() []journalSlot {
 		if !ok {
 			continue
 		}
-		js := journalSlot{slot: sw.slot, lit: lit, pos: sw.pos, fields: map[string]ast.Expr{}}
+		js := journalSlot{slot: sw.slot, lit: lit, pos: sw.pos, fields: map[string]ast.Expr{}, installer: sw.fn}
 		for _, el := range lit.Elts {
 			if kv, ok := el.(*ast.KeyValueExpr); ok {
 				if id, ok := kv.Key.(*ast.Ident); ok {
